@@ -189,6 +189,11 @@ type C12WCase struct {
 	Extra  int  `json:"extra"`  // messages beyond 65536
 	QoS2   bool `json:"qos2"`   // subscription and publishes at QoS 2 (PUBREC/PUBREL/PUBCOMP) instead of 1
 	Second bool `json:"second"` // a second wrap (another 65536 messages)
+	// Publishers > 1: Total messages (fewer than 65535, so that the subscriber can leave them
+	// all unacknowledged) are published by that many goroutines calling Server.Publish at once:
+	// deliveries to one connection from several goroutines draw their identifiers concurrently
+	Publishers int `json:"publishers,omitempty"`
+	Total      int `json:"total,omitempty"`
 }
 
 func runC12Wrap(c C12WCase) (fail string) {
@@ -257,13 +262,45 @@ func runC12Wrap(c C12WCase) (fail string) {
 	if c.Second {
 		total += 65536
 	}
-	for i := 0; i < total; i++ {
+	if c.Total > 0 {
+		total = c.Total
+	}
+	publish := func(i int) string {
 		m := message.NewPublishMessage()
 		m.SetTopic([]byte("wrap/t"))
 		m.SetPayload([]byte{byte(i), byte(i >> 8), byte(i >> 16)})
 		m.SetQoS(q)
 		if err := b.Srv.Publish(m); err != nil {
 			return fmt.Sprintf("Server.Publish #%d: %v", i, err)
+		}
+		return ""
+	}
+	if c.Publishers > 1 {
+		var wg sync.WaitGroup
+		errs := make([]string, c.Publishers)
+		for g := 0; g < c.Publishers; g++ {
+			wg.Add(1)
+			go func(g int) {
+				defer wg.Done()
+				for i := g; i < total; i += c.Publishers {
+					if f := publish(i); f != "" {
+						errs[g] = f
+						return
+					}
+				}
+			}(g)
+		}
+		wg.Wait()
+		for _, f := range errs {
+			if f != "" {
+				return f
+			}
+		}
+	} else {
+		for i := 0; i < total; i++ {
+			if f := publish(i); f != "" {
+				return f
+			}
 		}
 	}
 	if _, err := S.Barrier(); err != nil {
@@ -296,7 +333,8 @@ func TestC12Wrap(t *testing.T) {
 		t.Skip()
 	}
 	e := ev.GetEnv()
-	cases := []C12WCase{{Lag: 1, Extra: 40}, {Lag: 4, Extra: 40, QoS2: true}, {Lag: 50, Extra: 200}, {Lag: 2, Extra: 10, Second: true}}
+	cases := []C12WCase{{Lag: 1, Extra: 40}, {Lag: 4, Extra: 40, QoS2: true}, {Lag: 50, Extra: 200}, {Lag: 2, Extra: 10, Second: true},
+		{Lag: 70000, Publishers: 8, Total: 32000}, {Lag: 70000, Publishers: 3, Total: 20000, QoS2: true}, {Lag: 70000, Publishers: 16, Total: 48000}, {Lag: 500, Publishers: 6, Total: 60000}}
 	if ev.Thorough() {
 		for _, lag := range []int{1, 2, 3, 7, 100, 1000} {
 			cases = append(cases, C12WCase{Lag: lag, Extra: 3000}, C12WCase{Lag: lag, Extra: 3000, QoS2: true, Second: lag%2 == 1})
@@ -307,7 +345,11 @@ func TestC12Wrap(t *testing.T) {
 			continue
 		}
 		f := runC12Wrap(c)
-		rec.Case(c, true, "identifier-counter-wrapped")
+		if c.Publishers > 1 {
+			rec.Case(c, true, "concurrent-deliveries-to-one-connection")
+		} else {
+			rec.Case(c, true, "identifier-counter-wrapped")
+		}
 		if f != "" {
 			p := rec.Violation("-", "plan", f, c, nil)
 			rec.Flush()
